@@ -5,10 +5,11 @@ id=$1; diff=$2; shift 2; checks=${@:-$id}
 d=/tmp/ev/$(basename $(dirname $diff))_$(basename $(dirname $(dirname $diff)))_$(basename $diff .diff)_$$
 rm -rf $d && mkdir -p $d && (cd /repo && git archive HEAD | tar -x -C $d) || exit 2
 (cd $d && git init -q . 2>/dev/null; git -C $d apply --whitespace=nowarn $diff 2>&1 || (cd $d && patch -p1 --binary < $diff)) || { echo "APPLY FAILED"; exit 2; }
+rm -rf $d.lean && cp -r /verif/lean $d.lean
 for c in $checks; do
-  out=$(cd /verif && VERIF_EVIDENCE_DIR=/tmp/ev/evidence VERIF_REPLAY_DIR=/tmp/ev/replays UWG_REPO=$d timeout 1800 bin/check $c 2>&1)
+  out=$(cd /verif && VERIF_LEAN_DIR=$d.lean VERIF_EVIDENCE_DIR=/tmp/ev/evidence VERIF_REPLAY_DIR=/tmp/ev/replays UWG_REPO=$d timeout 1800 bin/check $c 2>&1)
   rc=$?
   echo "== $c on $(basename $d): rc=$rc; $(echo "$out" | grep -c '^VIOLATION') violation lines; $(echo "$out" | grep -c 'no-failing-input-found') without input"
   echo "$out" | grep "^VIOLATION\|INFRA\|KNOWN" | head -3
 done
-rm -rf $d
+rm -rf $d $d.lean
